@@ -723,6 +723,18 @@ for _p, _oid in (("C05", "M05-6-committed-merges-target-the-commit-opstamp"), ("
       title="policy-driven merges: before any merge is started the last commit's opstamp is read (merges of committed segments are targeted at it, so they apply no delete that is still uncommitted and end_merge publishes nothing a commit did not contain); confirmed natively by the background-merge probe",
       functions=["SegmentUpdater::consider_merge_options"], bounds="")
 
+M("C18", "M18-5-ram-directory-create-if-absent-is-one-critical-section", dict(
+    root=r"^directory::ram_directory::" + I + r"::open_write$", root_impl="RamDirectory", depth=1, unroll=2, inline=[], auto_inline=False,
+    native=[("probe", "single_writer_under_racing_creations")], absent_ok_events=["rlock", "exists"],
+    events={"wlock": {"call": r"RwLock::<directory::ram_directory::InnerDirectory>::write$"},
+            "rlock": {"call": r"RwLock::<directory::ram_directory::InnerDirectory>::read$"},
+            "create": {"call": r"InnerDirectory::write$"},
+            "exists": {"call": r"InnerDirectory::exists$"},
+            "ret": {"ret": True}},
+    checks=[("never", "rlock"), ("never", "exists"), ("precedes", "wlock", "create"), ("requires_between", "wlock", "ret", "wlock"), ("reach", "create")]),
+  title="RamDirectory::open_write (the create-new primitive the default writer lock rests on): the file is created under ONE acquisition of the directory's write lock and 'already exists' is what that creation itself reports - no separate existence check, no read lock, no second acquisition (a check-then-create race lets several writers in); confirmed natively by the racing-creations probe",
+  functions=["<RamDirectory as Directory>::open_write"], bounds="")
+
 # =============================================================================================
 # C03: mixed-type numeric range bounds (mirbv: loop-free integer MIR -> QF_BV)
 # =============================================================================================
